@@ -756,7 +756,16 @@ class Translator:
                 t, _ = self.ann(file, node.slice)
                 return t, True
             if h in ("Tuple", "List"):
-                return "TList", False
+                # OmegaConf types every element of List[T] / Tuple[T, ...] (converting scalars of another
+                # type, rejecting None): the element type is part of the model (TListOf)
+                sl = node.slice
+                elems = list(sl.elts) if isinstance(sl, ast.Tuple) else [sl]
+                elems = [e for e in elems if not (isinstance(e, ast.Constant) and e.value is Ellipsis)]
+                tys = [self.ann(file, e) for e in elems]
+                if not tys or any(o for _, o in tys) or len({t for t, _ in tys}) != 1:
+                    fail(file, node, "list / tuple annotation with optional or mixed element types")
+                et = tys[0][0]
+                return ("TList" if et == "TAny" else f"(TListOf {et})"), False
             if h == "Dict":
                 return "TDict", False
             if h == "Union":
